@@ -69,6 +69,8 @@ def generate(rng, tier):
                 grid.append([f"p{i}", {"kind": "range", "v": n}])
             else:
                 grid.append([f"p{i}", {"kind": kind, "v": rng.sample(range(10), n)}])   # distinct values: unique combos
+        if grid and rng.random() < 0.02:
+            grid[-1][0] = rng.choice(["records", "score"])       # trigger of known finding F9 (rare on purpose)
         size = 1
         for _, s in grid:
             size *= len(as_list(s))
@@ -186,7 +188,8 @@ def check_outcome(ctx, sc, combos, sigs, table, val, ledger, label):
         want_rec = [to_val(v) for v in spec]
         for k, v in c.items():
             ctx.check(k in r and r[k] == v and type(r[k]) is type(v), "parameters-modified",
-                      f"{label}: combination {i}: parameter {k}={v!r} reported as {r.get(k)!r}")
+                      f"{label}: combination {i}: parameter {k}={v!r} reported as {r.get(k)!r}",
+                      finding="F9" if k in ("records", "score") else None)
         ctx.check(set(c) | {"records", "score"} <= set(r), "result-keys", f"{label}: combination {i}: keys {sorted(r)}")
         ctx.check(list(r["records"]) == want_rec, "records",
                   f"{label}: combination {i} ({sigs[i]}): records {r['records']!r} expected {want_rec!r}")
